@@ -543,6 +543,40 @@ func (x *zzC12) checkFailBacks(final bool) {
 				r.Fail("fail-back-unknown-htlc", "upstream failure for offered HTLC index %d which never existed", idx)
 			}
 		}
+		// A revoked commitment confirmed: none of the three live commitments
+		// did, so every offered HTLC of theirs exists only on a non-confirmed
+		// commitment and is failed back upstream (unless its preimage is
+		// already known). lnd documents this for the HTLCs on either of the
+		// peer's commitments (current and pending), which is every offered
+		// HTLC that can still be live: an offered HTLC enters the peer's
+		// commitment first and leaves it last.
+		if w.closeDelivered == "breach" {
+			for _, h := range m.htlcs {
+				if h.incoming || h.gone {
+					continue
+				}
+				onR := w.commits[zzSetR] != nil && h.in[zzSetR]
+				onP := w.commits[zzSetP] != nil && h.in[zzSetP]
+				if !onR && !onP {
+					continue
+				}
+				if m.known(h.hashNo) {
+					r.Count("probe_breach_offered_with_known_preimage")
+					continue
+				}
+				r.Count("probe_breach_offered_on_peer_commitment")
+				if !onR {
+					r.Count("probe_breach_offered_only_on_peer_pending_commitment")
+				}
+				if fails[h.id] == 0 {
+					where := "the peer's current commitment"
+					if !onR {
+						where = "the peer's pending commitment only"
+					}
+					r.Fail("fail-back-missing", "a revoked commitment confirmed (breach): %v is on %s, i.e. on no confirmed commitment, its preimage is unknown, but it was never failed back upstream", h, where)
+				}
+			}
+		}
 		return
 	}
 	name := zzSetName[conf]
